@@ -212,41 +212,40 @@ def gen_cases(ctx):
                     cases.append(parse_case(ln))
     kinds = ["small", "canon", "sparse", "large"]
     # square routines: every order 0..N
-    n1 = 12 if quick else 32
+    n1 = 16 if quick else 40
     for op in OPS1:
         for n in range(0, n1 + 1):
-            for kind in (["small", "canon"] if quick else kinds):
+            for kind in kinds:
                 cases.append(make_case(rng, op, (n,), kind))
     # rectangular routines: every (m, n) in 0..N x 0..N  (m<n, m=n, m>n, empty, single row/column)
-    n2 = 8 if quick else 20
+    n2 = 10 if quick else 24
     for op in OPS2:
         for m in range(0, n2 + 1):
             for n in range(0, n2 + 1):
-                for kind in (["small"] if quick else ["small", "canon", "large"]):
+                for kind in (["small", "canon"] if quick else ["small", "canon", "large"]):
                     cases.append(make_case(rng, op, (m, n), kind))
     # products: all shapes 1..N^3 exhaustively, plus every shape with a zero dimension in 0..2^3
     n3 = 6 if quick else 9
     for op in OPS3:
         for d in itertools.product(range(1, n3 + 1), repeat=3):
-            cases.append(make_case(rng, op, d, rng.choice(kinds) if quick else "small"))
-            if not quick:
-                cases.append(make_case(rng, op, d, rng.choice(["canon", "sparse", "large"])))
+            cases.append(make_case(rng, op, d, "small"))
+            cases.append(make_case(rng, op, d, rng.choice(["canon", "sparse", "large"])))
         for d in itertools.product(range(0, 3), repeat=3):
             if 0 in d:
                 cases.append(make_case(rng, op, d, "small", "zero-dim"))
-    # random larger shapes (strides beyond the exhaustive box)
-    nbig = 40 if quick else 400
-    hi = 14 if quick else 24
-    for _ in range(nbig):
-        op = rng.choice(ALL_OPS)
-        if op in OPS1:
-            d = (rng.randint(7, hi + 8),)
-        elif op in OPS2:
-            d = (rng.randint(1, hi + 8), rng.randint(1, hi + 8))
-        else:
-            d = tuple(rng.choice([1, 1, 2, rng.randint(3, hi)]) if rng.random() < 0.3 else rng.randint(2, hi)
-                      for _ in range(3))
-        cases.append(make_case(rng, op, d, rng.choice(kinds), "random-large"))
+    # random larger shapes (strides beyond the exhaustive box); thorough: 5 derived seeds
+    hi = 16 if quick else 28
+    for sub in range(1 if quick else 5):
+        r2 = random.Random(ctx.subseed("C09/large/%d" % sub))
+        for _ in range(100 if quick else 160):
+            op = r2.choice(ALL_OPS)
+            if op in OPS1:
+                d = (r2.randint(n1 + 1, n1 + 12),)
+            elif op in OPS2:
+                d = (r2.randint(1, hi + 8), r2.randint(1, hi + 8))
+            else:
+                d = tuple(r2.choice([1, 1, 2]) if r2.random() < 0.25 else r2.randint(2, hi) for _ in range(3))
+            cases.append(make_case(r2, op, d, r2.choice(kinds), "random-large"))
     return cases
 
 
@@ -351,7 +350,8 @@ def shrink(ctx, cbin, case):
     cands = []
     for d in itertools.product(*[range(0, v + 1) for v in dims]):
         cands.append(make_case(None, case.op, d, "canon", "shrunk"))
-    cands.sort(key=lambda c: (sizes(c.op, c.d)[2] + sizes(c.op, c.d)[0] + sizes(c.op, c.d)[1], c.d))
+    # shapes inside the property's stated domain (every dimension >= 1) first, smallest first
+    cands.sort(key=lambda c: (0 in c.dims_used(), sum(sizes(c.op, c.d)), c.d))
     cands = cands[:4000]
     lines = run_c(cbin, cands, max_restarts=3)
     for c, ln in zip(cands, lines):
@@ -361,7 +361,12 @@ def shrink(ctx, cbin, case):
     return None
 
 
-def report_failure(ctx, cbin, case, c_line, why, m_line=None):
+def report_failure(ctx, cbin, case, c_line, why, m_line=None, origin="integer run"):
+    """Shrink and report one property failure; at most one report per routine and run."""
+    done = ctx.__dict__.setdefault("_c09_reported", set())
+    if case.op in done:
+        return
+    done.add(case.op)
     sh = shrink(ctx, cbin, case)
     if sh:
         scase, sline, swhy = sh
@@ -369,9 +374,11 @@ def report_failure(ctx, cbin, case, c_line, why, m_line=None):
         scase, sline, swhy = case, c_line, why
     exp = expected(scase.op, scase.d, scase.X, scase.Y, scase.O)
     replay = scase.as_json()
-    replay.update({"expected_result": exp, "observed_line": sline, "failure": swhy,
-                   "original_case": case.as_json(), "original_failure": why, "model_line": m_line,
-                   "how_to_replay": "echo '<case_line>' | build/C09/drv   (built by checks/C09.py from $VERIF_REPO/src/linalg.c)"})
+    replay.update({"expected_result": exp, "observed_line": sline, "failure": swhy, "found_in": origin,
+                   "original_case": case.as_json() if not isinstance(case, FCase) else {"case_line": case.line()},
+                   "original_failure": why, "model_line": m_line,
+                   "how_to_replay": "python3 tools/vcheck.py C09 --replay <this file>   (or: echo '<case_line>' | build/C09/drv, "
+                                    "built by checks/C09.py from $VERIF_REPO/src/linalg.c)"})
     dims = "x".join(str(v) for v in scase.dims_used())
     ctx.report(key="a_real_%s/%s" % (scase.op, dims),
                what="a_real_%s(%s): %s" % (scase.op, ",".join(str(v) for v in scase.dims_used()), swhy),
@@ -431,8 +438,8 @@ class FCase(Case):
 
 def float_tie(ctx):
     rng = random.Random(ctx.subseed("C09/float"))
-    n = 150 if ctx.quick else 1200
-    hi = 5 if ctx.quick else 7
+    n = 400 if ctx.quick else 3000
+    hi = 5 if ctx.quick else 8
     cases = []
     for i in range(n):
         op = ALL_OPS[i % len(ALL_OPS)] if i < 3 * len(ALL_OPS) else rng.choice(ALL_OPS)
@@ -454,13 +461,13 @@ def float_tie(ctx):
            "mulTm": "OpMulTm", "mulmT": "OpMulmT", "mulTT": "OpMulTT"}
     items = []
     usable = []
+    flagged = []
     for idx, (c, ln) in enumerate(zip(cases, lines)):
         t = ln.split()
         if len(t) < 5 or t[4] != "ok":
-            ctx.tie_broken("float run: C driver reported '%s' on case %d (%s)" % (" ".join(t[:5]), idx, c.key()))
-            why = "float run, " + ("status " + t[4] if len(t) > 4 else ln[:200])
-            ctx.report(key="a_real_%s/float-status" % c.op, what="a_real_%s %s: %s" % (c.op, c.d, why),
-                       replay={"case_line": c.line(), "observed_line": ln}, found_input=True)
+            if len(flagged) < 3:
+                ctx.tie_broken("float run: C driver reported '%s' on case %d (%s)" % (" ".join(t[:5])[:120], idx, c.key()))
+            flagged.append(idx)
             continue
         outv = [hex2f(v) for v in t[5:]]
         fl = lambda a: "[" + "; ".join(coq_float(v) for v in a) + "]"
@@ -485,10 +492,10 @@ def float_tie(ctx):
                                   "disagreements": len(bad),
                                   "rule": "model at PrimFloat (vm_compute) == C -O2 -ffp-contract=off, bit for bit, NaNs identified"}
     ctx.count(evaluations=len(usable), nontrivial=sum(1 for i in usable if all(v >= 1 for v in cases[i].dims_used())))
-    for b in bad[:5]:
+    for b in bad[:3]:
         c = cases[usable[b]]
         ctx.tie_broken("bit-exact float correspondence: case %d (%s) differs" % (usable[b], c.key()))
-    return cases, usable, bad, lines
+    return cases, usable, bad, lines, flagged
 
 
 # ----------------------------------------------------------------------------------------------
@@ -499,8 +506,38 @@ def build(ctx):
     return cbin, mbin
 
 
+MY_V = ["C09/LinalgDefs.v", "C09/LinalgSpec.v", "C09/LinalgFloat.v", "C09/LinalgLemmas.v", "C09/LinalgPatProofs.v",
+        "C09/LinalgTProofs.v", "C09/LinalgMulProofs.v", "C09/LinalgRing.v", "C09/LinalgExamples.v", "C09/Extract.v",
+        "Properties_C09.v"]
+
+
+def coqchk(ctx):
+    """thorough: re-check the compiled C09 modules with the independent checker (stdlib not re-checked)."""
+    mods = ["LibaV." + v[:-2].replace("/", ".") for v in MY_V if v != "C09/Extract.v"]
+    cmd = ["coqchk", "-silent", "-o", "-Q", ".", "LibaV"]
+    for m in mods:
+        cmd += ["-norec", m]
+    rc, out = vlib.sh(cmd, cwd=vlib.COQ, timeout=900)
+    if rc != 0:
+        ctx.tie_broken("coqchk rejected the C09 development: " + " ".join(out.split())[-600:])
+    else:
+        ctx.cov["trusted_base"].append("thorough: coqchk -o -norec on %d C09 modules accepted them" % len(mods))
+        ctx.cov["coqchk"] = "ok (%d modules)" % len(mods)
+
+
 def run(ctx):
-    ctx.prove()
+    if not ctx.quick:
+        # clean rebuild of this property's own files
+        for v in MY_V:
+            vo = (vlib.COQ / v).with_suffix(".vo")
+            if vo.exists():
+                vo.unlink()
+    ok = ctx.prove()
+    okf, outs, failed = ctx.coq_build(["C09/LinalgFloat.v"], timeout=600)
+    if not okf:
+        raise vlib.CheckError("C09/LinalgFloat.v does not compile: " + " ".join(outs.get("C09/LinalgFloat.v", "").split())[-400:])
+    if ok and not ctx.quick:
+        coqchk(ctx)
     cbin, mbin = build(ctx)
     cases = gen_cases(ctx)
     ctx.log("generated %d cases" % len(cases))
@@ -551,37 +588,36 @@ def run(ctx):
         i = cases.index(c)
         ctx.sample({"case": c.line()[:200], "C": c_lines[i][:200] if i < len(c_lines) else "", "model": m_res[i][0][:200]})
 
+    # The property itself, evaluated on everything the C produced (cheap, so it is not reserved for the
+    # case of a broken tie): exact integer definition, guard cells, inputs unmodified, no sanitizer abort.
+    fails = []
+    for i, c in enumerate(cases):
+        why = oracle(c, c_lines[i]) if i < len(c_lines) else None
+        if why:
+            fails.append((i, why))
+    ctx.cov["oracle_evaluations"] = len(cases)
     if disagree:
         i0 = disagree[0]
         ctx.tie_broken("correspondence linalg.c vs model: %d of %d cases differ, first: case %d (%s): C '%s' / model '%s'"
                        % (len(disagree), len(cases), i0, cases[i0].key(), c_lines[i0][:120] if i0 < len(c_lines) else "", m_res[i0][0][:120]))
-        # search oracle on the disagreeing cases (one report per routine), then on everything else
-        seen_ops = set()
-        for i in disagree + [j for j in range(len(cases)) if j not in set(disagree)]:
-            c = cases[i]
-            if c.op in seen_ops or i >= len(c_lines):
-                continue
-            why = oracle(c, c_lines[i])
-            if why:
-                seen_ops.add(c.op)
-                report_failure(ctx, cbin, c, c_lines[i], why, m_res[i][0])
+    if fails and not disagree:
+        ctx.tie_broken("the C output violates the specification although it agrees with the model (case %d, %s)"
+                       % (fails[0][0], cases[fails[0][0]].key()))
+    dis = set(disagree)
+    for i, why in sorted(fails, key=lambda f: (f[0] not in dis, f[0])):
+        report_failure(ctx, cbin, cases[i], c_lines[i], why, m_res[i][0])
     # bit-exact float run
     try:
-        fcases, usable, bad, flines = float_tie(ctx)
-        if bad:
-            # the float disagreement is a broken tie; look for a property failure with the integer oracle on
-            # the same routines and shapes (canonical integer contents)
-            done = set()
-            for b in bad:
-                c = fcases[usable[b]]
-                if c.op in done:
-                    continue
-                done.add(c.op)
-                ic = make_case(None, c.op, c.d, "canon")
-                ln = run_c(cbin, [ic])[0]
-                why = oracle(ic, ln)
-                if why:
-                    report_failure(ctx, cbin, ic, ln, why)
+        fcases, usable, bad, flines, flagged = float_tie(ctx)
+        # a float disagreement / a guard hit in the float run is a broken tie; the failing input is looked for
+        # with the exact integer oracle on the same routine and shape (canonical integer contents), then shrunk
+        for idx in flagged + [usable[b] for b in bad]:
+            c = fcases[idx]
+            ic = make_case(None, c.op, c.d, "canon")
+            ln = run_c(cbin, [ic])[0]
+            why = oracle(ic, ln)
+            if why:
+                report_failure(ctx, cbin, ic, ln, why, origin="float run, case '%s'" % c.line()[:300])
     except vlib.CheckError as e:
         ctx.tie_broken("float tie could not run: " + str(e)[:600])
 
